@@ -193,6 +193,11 @@ def build_pkgo(sc, sid):
                 out.tagged(key, "f%d %s" % (n, PT))
                 out.add("}", "")
                 continue
+            if r == "typeEmbed":
+                out.add("type H%d struct {" % n)
+                out.tagged(key, ("*" if n % 2 else "") + PT)
+                out.add("\tN%d int" % n, "}", "")
+                continue
             if r == "typeParam":
                 out.tagged(key, "func fn%d(x%d %s) {" % (n, n, PT), "")
                 out.add("}", "")
